@@ -550,10 +550,18 @@ func (env *SpecEnv) evalCall(e *SExpr) TV {
 				fn = "std.strings.Index"
 			}
 			return TV{App(fn, SInt, a.T, b.T), types.Typ[types.Int]}
+		case "lastSeg":
+			a := env.eval(e.Args[0])
+			b := env.eval(e.Args[1])
+			return TV{lastSegTerm(a.T, b.T), types.Typ[types.String]}
+		case "trimSuffix":
+			a := env.eval(e.Args[0])
+			b := env.eval(e.Args[1])
+			return TV{App("std.strings.TrimSuffix", SStr, a.T, b.T), types.Typ[types.String]}
 		case "prefixof":
 			a := env.eval(e.Args[0])
 			b := env.eval(e.Args[1])
-			return TV{App("str.prefixof", SBool, a.T, b.T), B}
+			return TV{App("sx.prefixof", SBool, a.T, b.T), B}
 		case "sprintf":
 			var args []*Term
 			for _, a := range e.Args[1:] {
